@@ -19,7 +19,7 @@ META = dict(
     "saw the {} 'back' callback, every event reaches every then-registered listener exactly once in order keyed (aid,iid), a raising listener neither starves others nor "
     "closes the transport Also: accessories that refuse one characteristic of a request (207 with a row per characteristic), every block boundary inside an EVENT x HTTP style x {one read, two reads} followed by a second event, and configurations under byte-wise reads / reads ending inside a block / chunked lower-case HTTP. CoAP subscriptions: all histories up to length 4 (5) over {subscribe / unsubscribe of overlapping sets, mDNS endpoint change, use, accessory restart, event}: the accessory's current session has a registration for everything subscribed whenever the pairing is connected. BLE leg (c12_ble.py): all histories up to depth D over {subscribe calls with overlapping sets, the start-notify timer, "
     "a change announced by an empty GATT notification, a burst over all enabled characteristics, a storm on one, link drop, reconnect by the next use, one CCCD write that fails while the link stays up, a raising listener} "
-    "against a real BlePairing and the reference GATT accessory: every subscription has notifications enabled on the live connection once quiescent, every announced change ends up delivered, deliveries follow the accessory's value history. Also: subscription sets of 40 / 45 characteristics (requests and re-subscriptions beyond one 1024-byte block); events that reach a disconnected BLE pairing as encrypted broadcasts, with repeated copies of an accepted broadcast (the connected-session harness of C18 with characteristics that report by broadcast): the event is delivered once.",
+    "against a real BlePairing and the reference GATT accessory: every subscription has notifications enabled on the live connection once quiescent, every announced change ends up delivered, deliveries follow the accessory's value history. Also: subscription sets of 40 / 45 characteristics (requests and re-subscriptions beyond one 1024-byte block); events that reach a disconnected BLE pairing as encrypted broadcasts, with repeated copies of an accepted broadcast (the connected-session harness of C18 with characteristics that report by broadcast): the event is delivered once. Also the application closing the pairing's connection and using it again.",
     note="bounded depth D; the accessory model registers ev per session as HAP specifies and never pushes events on its own",
     design_ref="DESIGN.md §4 C12",
     rule="state = canonical (subscriptions, accessory registrations, listeners, logs, flags); transition = one history symbol; execution = maximal path",
